@@ -652,7 +652,7 @@ impl Prop for C15P {
         "C15"
     }
     fn rule(&self) -> String {
-        "operation histories (one proptest chunk per operation, up to 60) over 3 handle slots with arbitrary aliasing, for element types u8, u64, String, List[u64], zero-sized tracked Tz, 24-byte tracked Tr, Option[u32], Option[String]; operations new / clone handle / drop handle / push / get / len / is_empty / capacity / swap / concat and + (incl. self) / contains / index / == and != / from Vec, array, iterator and script literal / into_iter, to_vec and for loops / pushes through a script-made alias, each issued through the Rust List API or a compiled script function; indices around 0, len-1, len, len+1, u64::MAX; oracle: every result equals the shared-vector model, concat leaves operands unchanged, tracked element count equals the model's after every step and 0 at the end. Non-trivial: crosses a growth boundary with aliases in use, or self-concat, or == on distinct storages; distinct by decoded history".into()
+        "operation histories (one proptest chunk per operation, up to 60) over 3 handle slots with arbitrary aliasing, for element types u8, u64, String, List[u64], zero-sized tracked Tz, 24-byte tracked Tr, Option[u32], Option[String]; operations new / clone handle / drop handle / push / get / len / is_empty / capacity / swap / concat and + (incl. self) / contains / index / == and != / from Vec, array, iterator and script literal / into_iter, to_vec and for loops / pushes through a script-made alias / `+=` on a copy of the handle / a for loop over a list that grows through an alias while it runs, each issued through the Rust List API or a compiled script function; indices around 0, len-1, len, len+1, u64::MAX; oracle: every result equals the shared-vector model, concat leaves operands unchanged, tracked element count equals the model's after every step and 0 at the end. Non-trivial: crosses a growth boundary with aliases in use, or self-concat, or == on distinct storages; distinct by decoded history".into()
     }
     fn assumptions(&self) -> Vec<String> {
         vec![
